@@ -1,6 +1,6 @@
 #!/bin/bash
 # usage: sweep.sh <seed>...   runs every quick check under each seed on the current tree; prints one line per check
-cd /verif
+cd "$(dirname "$0")"
 for s in "$@"; do
   for id in C01 C02 C03 C04 C05 C06 C07 C08 C09 C10 C11 C12 C13 C14 C15 C16 C17 C18 C19 C20; do
     S=$(date +%s); OUT=$(VERIF_SEED=$s ./check $id 2>/tmp/sweep.err); RC=$?
